@@ -5240,6 +5240,11 @@ class DfaCompileCtx:
             if not to_replace.is_fallthrough:
                 continue
 
+            # Whatever comes after an action that returns to the caller (yield) on the same transition never runs: the dummy
+            # state is what holds the actions that follow it.
+            if any(x.may_return_early() for x in transition.actions):
+                continue
+
             if len(to_replace.actions) > 0:
                 max_count = ProgramData.option(ProgramOption.MAX_SHORTCIRCUIT_FALLTHROUGH) - ProgramData.option(ProgramOption.MAX_SHORTCIRCUIT_ACTION_PENALTY)*(len(to_replace.actions)-1)
                 if ignore_map_counter[(frozenset(to_replace.on_values), to_replace.target)] > max_count:
